@@ -124,13 +124,24 @@ def structural_contracts(col, g):
         col.check(f"{fn.__name__}:continuity", continuity)
 
 
-def superposition_contract(col, g, with_p):
+def superposition_contract(col, g, with_p, close=False):
     n, ks, kp = int(g.integers(1, 7)), int(g.integers(1, 5)), int(g.integers(1, 4))
     pts = g.normal(size=(n, 3)) * 2
     Cs, cs, als = g.normal(size=(ks, 3)), g.normal(size=ks), g.uniform(0.2, 9, ks)
     Cp, cp, alp = g.normal(size=(kp, 3)), g.normal(size=kp), g.uniform(0.2, 9, kp)
     if g.random() < 0.4:
         pts[0] = Cs[0]          # a point exactly on a centre
+    layout = "random"
+    if close:
+        # "all centre sets": contracted shells (repeated centres), finite-difference multipoles and slightly off-site functions (consecutive
+        # centres a tiny distance apart, also far from the origin), the first p centre next to the last s centre
+        layout = ("repeated", "nearly-coincident", "nearly-coincident-far")[int(g.integers(0, 3))]
+        shift = g.normal(size=3) * (40.0 if layout.endswith("far") else 0.0)
+        eps = 0.0 if layout == "repeated" else float(10.0 ** g.uniform(-9, -3.5))
+        Cs = Cs[:1] + shift + eps * g.normal(size=(ks, 3))
+        Cp = Cs[-1:] + eps * g.normal(size=(kp, 3))
+        pts = pts + shift
+        cs[1::2] *= -1
     nrm = bool(g.integers(0, 2))
     snap = [a.copy() for a in (pts, Cs, cs, als, Cp, cp, alp)]
 
@@ -149,8 +160,9 @@ def superposition_contract(col, g, with_p):
             if not np.array_equal(a, b):
                 return False, "an argument array was modified"
         return True, None
-    col.check(f"coulomb_potential:superposition:{'sp' if with_p else 's'}", chk,
-              inputs={"n": n, "ks": ks, "kp": kp, "normalized": nrm}, sample={"points": n, "s_centres": ks, "p_centres": kp if with_p else 0})
+    col.check(f"coulomb_potential:superposition:{'sp' if with_p else 's'}" + (f":{layout}" if close else ""), chk,
+              inputs={"n": n, "ks": ks, "kp": kp, "normalized": nrm, "layout": layout, "centers_s": Cs.tolist(), "centers_p": Cp.tolist()},
+              sample={"points": n, "s_centres": ks, "p_centres": kp if with_p else 0, "layout": layout})
 
 
 def params_contract(col):
@@ -200,8 +212,8 @@ def params_contract(col):
 def run(tier, seed, *rest):
     col = Collector("real coulomb_gaussian_s/p (normalized and not) against 30-digit Coulomb integrals of the documented density for "
                     "alpha in 10^-3..10^4 and r in {0, below/at/above the 1e-12 switch, fractions of 1/sqrt(alpha), up to 1e6}; "
-                    "continuity across the switch; argument validation; coulomb_potential against explicit superposition on random "
-                    "centre sets; load_atomic_gaussian_params for every Z=1..118 by number/symbol (exhaustive); distinct = (function, contract, element)")
+                    "continuity across the switch; argument validation; coulomb_potential against explicit superposition on random, "
+                    "repeated and nearly coincident centre sets; load_atomic_gaussian_params for every Z=1..118 by number/symbol (exhaustive); distinct = (function, contract, element)")
     g = rng(seed, "C17")
     alphas = [1e-3, 0.05, 0.37, 1.0, 7.3, 150.0, 1e4] if tier == "quick" else list(10 ** np.linspace(-3, 4, 22))
     for kind in ("s", "p"):
@@ -215,6 +227,8 @@ def run(tier, seed, *rest):
     for k in range(6 if tier == "quick" else 40):
         superposition_contract(col, g, with_p=False)
         superposition_contract(col, g, with_p=True)
+        superposition_contract(col, g, with_p=False, close=True)
+        superposition_contract(col, g, with_p=True, close=True)
     params_contract(col)
     return col.result()
 
@@ -234,7 +248,7 @@ def replay(req):
         structural_contracts(col, g)
     else:
         for k in range(20):
-            superposition_contract(col, g, with_p=bool(k % 2))
+            superposition_contract(col, g, with_p=bool(k % 2), close=k % 4 >= 2)
     fails = [f for f in col.failures if fn is None or f["case_id"].startswith(fn) or fn == "coulomb_potential"]
     if fails:
         f = fails[0]
@@ -251,8 +265,8 @@ def replay_case(case):
     else:
         g = rng(0, "C17")
         structural_contracts(col, g)
-        for k in range(10):
-            superposition_contract(col, g, with_p=bool(k % 2))
+        for k in range(12):
+            superposition_contract(col, g, with_p=bool(k % 2), close=k % 4 >= 2)
     if col.failures:
         f = col.failures[0]
         return {"failed": True, "case_id": f["case_id"], "detail": f["detail"], "input": f["input"]}
